@@ -103,6 +103,18 @@ func (x *Exec) evalModSet(sp *FuncSpec, env *SpecEnv) *ModSet {
 				panic(fmt.Errorf("modifies %s: no field %s", ml.Src, sel.Name))
 			}
 			x.modAddField(ms, T2, fi, addr2, ml.Src)
+		case "chan":
+			base := env.eval(ml.E)
+			ct, ok := typeUnder(base.T).(*types.Chan)
+			if !ok {
+				panic(fmt.Errorf("modifies %s: not a channel", ml.Src))
+			}
+			prefix := "C!" + typeName(ct.Elem())
+			ms.Maps = append(ms.Maps, modMap{prefix, base.V.(VInt).T, ml.Src})
+			ms.keys[prefix+".n"] = ArrSort(SInt, SInt)
+			for _, l := range x.Sh.Leaves(ct.Elem()) {
+				ms.keys[prefix+".log"+l.Suffix] = ArrSort(SInt, ArrSort(SInt, l.Sort))
+			}
 		case "ghostglobal":
 			name := strings.TrimPrefix(ml.E.(EIdent).Name, "$")
 			gt, ok := x.W.Specs.GhostGlobals[name]
